@@ -344,6 +344,38 @@ def run(chk, prog):
         if k not in used:
             chk.note('C15 table entry matches no site (stale): ' + k)
 
+    # ---- what the decoders call on the state they are filling
+    R5 = 'C15.decoders-call-no-panicking-accessor'
+    chk.rule(R5, 'A decoder that calls a function of the engine which is not itself a decoder hands it state that comes '
+             'straight from the document. Such a callee contains no unguarded unwrap / index / slice / remove, or is in the '
+             'table below with the reason why the document cannot reach it (e.g. an accessor that unwraps "the current '
+             'thread" is fine during play, where a thread always exists, and aborts on a save whose thread list is empty).')
+    ACCESSOR_TABLE = {
+        'Container::new': 'the name of a child is unwrapped only under has_valid_name() (which tests name.is_some())',
+        'Container::content_at_path': 'the unwrap is on the path component at an index below the path length (loop bound)',
+        'Story::pointer_at_path': 'get_last_component() is unwrapped after the early return for an empty path; the index '
+                                  'of an index component is unwrapped under is_index()',
+    }
+    n_acc, seen_acc = 0, set()
+    for p_, fn in sorted(D.items()):
+        for bb, t in fn.calls():
+            g_ = prog.fns.get(callee(t))
+            if g_ is None or g_.p in D or g_.p in prim or g_.crate != 'bladeink' or g_.parent:
+                continue
+            ss = [s_ for h_ in prog.with_closures(g_) for s_ in sites(prog, h_)
+                  if s_['kind'].startswith(('unwrap', 'index', 'method', 'slice', 'assert:bounds'))
+                  and not guard_dominated(prog, h_, s_, tr)]
+            if not ss or (fn.short, g_.short) in seen_acc:
+                continue
+            seen_acc.add((fn.short, g_.short))
+            n_acc += 1
+            chk.decide(R5, chk.key(R5, prog.root_fn(fn).short, g_.short), g_.short in ACCESSOR_TABLE,
+                       'table: ' + ACCESSOR_TABLE.get(g_.short, ''),
+                       'decoder %s calls %s, which contains %s not guarded inside it: on a document that leaves the state in '
+                       'a shape play never produces (an empty thread list, ...) the load aborts instead of returning Err'
+                       % (prog.root_fn(fn).short, g_.short, ', '.join(sorted({s_['kind'] for s_ in ss}))[:120]), fn.loc(bb))
+    chk.extra_cov['decoder_calls_into_panicking_accessors'] = n_acc
+
     # ---- recursion
     edges = {}
     for p, fn in D.items():
